@@ -123,7 +123,14 @@ fn run_job(worker: &mut Worker, job: Job) -> Ran {
 
 const BYTES: [u8; 16] = [b'>', b'[', b']', b':', b'/', b'\t', b' ', b'\n', b'\r', b'7', b'A', b'N', 0x00, 0x80, 0xFF, b'.'];
 
+/// number of hangs seen by this process: after two the verdict stands and no further input is fed
+/// (every abandoned worker keeps a core busy until the process exits)
+static HANGS: std::sync::atomic::AtomicUsize = std::sync::atomic::AtomicUsize::new(0);
+
 fn feed(worker: &mut Worker, case: u64, rng: &mut Rng, rep: &mut Report, format: Format, protein: bool, input: &[u8], class: &str, base_label: &str) {
+    if HANGS.load(std::sync::atomic::Ordering::Relaxed) >= 2 {
+        return;
+    }
     rep.eval();
     rep.cover(&format!("reader.{}", format.name()));
     if protein {
@@ -155,6 +162,7 @@ fn feed(worker: &mut Worker, case: u64, rng: &mut Rng, rep: &mut Report, format:
     let (res, polled) = match ran {
         Ran::Done(r) => (r.res, r.polled),
         Ran::Hang(cpu) => {
+            HANGS.fetch_add(1, std::sync::atomic::Ordering::Relaxed);
             rep.violate(
                 "c15.hang",
                 case,
